@@ -222,6 +222,14 @@ def run_case_full(case, scratch):
     except (Exception, AssertionError) as e:
       info['statements'] += len(world.statements)
       failing = [s_ for s_ in world.statements if s_.error]
+      if case['kind'] == 'ground' and not program.get('recursive'):
+        # a program that cannot be run as one script with nothing grounded either fails for
+        # reasons that have nothing to do with the workflow (seed sweep 51: predicate names of
+        # 100+ characters give "duplicate WITH table name"): discarded and counted
+        from lsim import groundsim
+        if groundsim.fails_without_grounding(prog, preds, e):
+          info['discard'] = 'program fails without grounding too: %s' % type(e).__name__
+          return [], info
       vs.append({'class': 'engine-error', 'key': type(e).__name__,
                  'message': 'fault-free workflow run failed: %s: %s; failing statement: %s' % (
                      type(e).__name__, str(e)[:200], failing[-1].brief() if failing else None)})
